@@ -64,8 +64,8 @@ PROPS = {
                           dict(name="history", family="history", profile="C07", quick=300, thorough=4000, tags=["isolation", "isolation_dirty", "issue_aliased", "panic"])]),
     "C09": dict(theorems=["C09_struct_order_independent_partial", "C09_fields_order_independent_partial", "C09_deep_order_independent_partial", "C09_deep_premise_is_satisfiable", "C09_input_key_order_irrelevant", "C09_error_state_irrelevant_without_transforms", "C09_engine_computes_semantics"], cone=ENGINE_CONE + ["Proofs/Indep.v", "Proofs/DeepOrder.v"], rule=ENGINE_RULE,
                 families=[eng("engine", "C09", 1000, 16000, ["repeat", "repeat_ptgate", "panic"])]),
-    "C10": dict(theorems=["C10_map_wf", "C10_paths", "C10_field_key", "C10_nested_source_tag_refuted", "C10_engine_computes_semantics"], cone=ENGINE_CONE + ["Proofs/ErrsP.v", "Proofs/FrontEndsP.v"], rule=ENGINE_RULE,
-                families=[eng("engine", "C10", 1200, 20000, ["issues", "first", "panic"]),
+    "C10": dict(theorems=["C10_map_wf", "C10_paths", "C10_sanitize", "C10_field_key", "C10_nested_source_tag_refuted", "C10_engine_computes_semantics"], cone=ENGINE_CONE + ["Proofs/ErrsP.v", "Proofs/FrontEndsP.v"], rule=ENGINE_RULE,
+                families=[eng("engine", "C10", 1200, 20000, ["issues", "first", "panic", "sanitize"]),
                           dict(name="fe", family="fe", profile="fe", quick=700, thorough=8000, tags=["issues", "first", "panic", "nested_source_tag"])]),
     "C12": dict(theorems=["C12_engine_computes_semantics", "C12_test_receives_the_tested_value", "C12_pts_prefix_in_order", "C12_pts_skipped_when_an_issue_exists", "C12_preprocess_error_skips_schema", "C12_preprocess_type_mismatch_skips_schema", "C12_ctx_values_are_this_calls"], cone=ENGINE_CONE + ["Proofs/ExactP.v", "Model/Objects.v", "Proofs/ObjectsP.v"], rule=ENGINE_RULE,
                 families=[eng("engine", "C12", 1200, 20000, ["calls", "args", "ctx", "haserr", "panic"]),
